@@ -881,14 +881,21 @@ class Handle:
         if self.env.sym:
             self._convert_attrs()
             vec = self._symvec(ins)
+            before = {n: vec[n].copy() for n in self.in_names}
             jac = prev if prev is not None else self.csx.new_jac()
-            return self.csx.compute_partials(vec, jac)
+            out = self.csx.compute_partials(vec, jac)
+            # frame: the input vector after compute_partials (what the next linearisation or solve would read)
+            self.last_partials_frame = [(n, idx) for n in self.in_names for idx in np.ndindex(*self.shape[n])
+                                        if vec[n][idx] is not before[n][idx] and not S.iszero(S.lift(vec[n][idx]) - S.lift(before[n][idx]))]
+            return out
         vals = sx._NativeVec({n: np.array(np.broadcast_to(np.asarray(ins[n], dtype=float), self.shape[n])) for n in self.in_names})
+        before = {n: vals[n].copy() for n in self.in_names}
         jac = prev if prev is not None else sx._NativeJac(self.jinfo)
         if self.comp._discrete_inputs:
             self.comp.compute_partials(vals, jac, self.comp._discrete_inputs)
         else:
             self.comp.compute_partials(vals, jac)
+        self.last_partials_frame = [(n, idx) for n in self.in_names for idx in np.ndindex(*self.shape[n]) if vals[n][idx] != before[n][idx]]
         return jac
 
     def true_jac(self, ins, outs, of, wrt):
